@@ -72,6 +72,8 @@ class DetFuture(_BaseFuture):
         w = RT.world
         n = next(w.c45_futseq)
         self._hseq = n if w.c45_future_order > 0 else 1000000 - n
+        # the task was handed to the executor when Cluster.shutdown() had already stopped the scheduler
+        self.c45_after_stop = w.c45.sched_stopped
 
     def __hash__(self):
         return self._hseq
@@ -94,6 +96,7 @@ class Tracker(object):
         self.attempt_log = []     # [phase at the start of Connection.factory(), phase at its end, 'connected'|'failed']
         self.running = {}         # thread -> Activity of the executor task it is running now
         self.handler_runs = []    # Activity of every _ReconnectionHandler.run task (scheduled reconnection attempt) that was run
+        self.sched_stopped = False  # Cluster.shutdown() has stopped the scheduler (_Scheduler.shutdown() returned)
 
     @staticmethod
     def me():
@@ -123,9 +126,11 @@ class Activity(object):
     """One executor task while and after it runs: what it is and the connections it constructed.  For a scheduled
     reconnection attempt (`_ReconnectionHandler.run` of a control-connection or host reconnection handler) also the
     handler and whether it was cancelled before / while the attempt ran."""
-    def __init__(self, label, fn):
+    def __init__(self, label, fn, fut=None):
         self.label = label
         self.conns = []
+        # the task was asked for (handed to the executor) after Cluster.shutdown() had stopped the scheduler
+        self.requested_after_stop = bool(getattr(fut, 'c45_after_stop', False))
         h = getattr(fn, '__self__', None)
         self.handler = h if label.endswith('ReconnectionHandler.run') and hasattr(h, '_cancelled') else None
         self.kind = None if self.handler is None else 'control' if hasattr(self.handler, 'control_connection') else 'host'
@@ -260,6 +265,8 @@ def conn_name(c):
 class C45World(object):
     """params: hosts, protocol_version, orphaned_threshold, reconnect_attempts, request_timeout, future_order,
     legacy_pool=(core, max, max_requests_per_connection), keyspace (of the session),
+    reconnect_delay (seconds between reconnection attempts, ConstantReconnectionPolicy; default 2.0; 0 = the next attempt is
+    due at once),
     degraded={host index: fault name} (how that node treats every NEW connection from the end of the set-up on)"""
 
     def __init__(self, params, connect=True, manual=True):
@@ -284,9 +291,10 @@ class C45World(object):
             prof = ExecutionProfile(load_balancing_policy=self.lbp, request_timeout=p.get('request_timeout', 10.0))
             self.cluster = self.w.make_cluster(
                 connection_class=C45Conn, execution_profiles={EXEC_PROFILE_DEFAULT: prof},
-                reconnection_policy=ConstantReconnectionPolicy(2.0, max_attempts=p.get('reconnect_attempts', 3)),
+                reconnection_policy=ConstantReconnectionPolicy(p.get('reconnect_delay', 2.0), max_attempts=p.get('reconnect_attempts', 3)),
                 status_event_refresh_window=0, topology_event_refresh_window=0,
                 protocol_version=p.get('protocol_version', 4))
+            self._watch_scheduler()
             if p.get('legacy_pool'):
                 # protocol v1/v2: HostConnectionPool with core..max connections per host, grown on demand
                 from cassandra.policies import HostDistance
@@ -336,7 +344,7 @@ class C45World(object):
             trk.begin_activity()
             act = None
             if index < len(w.tasks) and not w.tasks[index][0].cancelled():
-                act = trk.running[me] = Activity(w.tasks[index][4], w.tasks[index][1])
+                act = trk.running[me] = Activity(w.tasks[index][4], w.tasks[index][1], w.tasks[index][0])
                 if act.handler is not None:
                     trk.handler_runs.append(act)
             try:
@@ -358,6 +366,18 @@ class C45World(object):
             trk.draining()
             return drain_executor(ex)
         w.run_task, w.drain_executor = tracked_run_task, tracked_drain
+
+    def _watch_scheduler(self):
+        """The moment from which Cluster.shutdown() has stopped the scheduler: nothing may be asked of it any more."""
+        sch, trk = self.cluster.scheduler, self.trk
+        stop = sch.shutdown
+
+        def tracked_stop():
+            try:
+                return stop()
+            finally:
+                trk.sched_stopped = True
+        sch.shutdown = tracked_stop
 
     def _install_server_faults(self):
         srv = self.srv
@@ -500,11 +520,45 @@ class C45World(object):
             self.shutdown(ev[1])
         elif k == 'use':
             self.use_keyspace(ev[1])
+        elif k == 'advance':
+            self.advance(ev[1])
         else:
             raise ValueError(ev)
         self.w.deliver_outbox()
 
+    def advance(self, goal, max_steps=200):
+        """Goal-directed prefix step: the default continuation (answers delivered, queued tasks FIFO, then scheduler entries in
+        deadline order; held application requests stay held) runs until `goal` holds.  Independent of HOW the driver moves a
+        due attempt to the executor (through a scheduler entry or directly)."""
+        w, cc = self.w, self.cluster.control_connection
+
+        def head_is(kind):
+            if not w.tasks or not w.tasks[0][4].endswith('ReconnectionHandler.run'):
+                return False
+            h = getattr(w.tasks[0][1], '__self__', None)
+            return (hasattr(h, 'control_connection')) == (kind == 'control')
+        goals = {'control-handler-armed': lambda: cc._reconnection_handler is not None and not cc._reconnection_handler._cancelled,
+                 'control-attempt-queued': lambda: head_is('control'),
+                 'host-attempt-queued': lambda: head_is('host')}
+        cond = goals[goal]
+        for _ in range(max_steps):
+            if cond():
+                return
+            if self.srv.outbox:
+                w.deliver_outbox()
+            elif w.tasks:
+                self.run_task(0)
+            elif w.sched_tasks:
+                self.fire_next_sched()
+            else:
+                break
+        raise HarnessError('C45 prefix: goal %r not reached' % (goal,))
+
     def fire_next_sched(self):
+        if not self.w.sched_tasks:
+            # a fixed prefix says 'the scheduler moves the next due entry to the executor' and there is none: the driver
+            # handed the task over by itself (zero-delay schedule); the explorer offers the event only when there is an entry
+            return
         e = sorted(self.w.sched_tasks, key=lambda t: (t[0], t[1]))[0]
         self.w.fire_sched(e)
 
@@ -705,6 +759,15 @@ class C45World(object):
                                    'done all its work and was only waiting for the executor', conn_name(c),
                                    ' '.join(conn_name(x) for x in w.conns if x.open_phase is not None)), data)
         if kind != 'session':
+            # a reconnection attempt (_ReconnectionHandler.run) that was asked for -- handed to the executor -- after
+            # Cluster.shutdown() had stopped the scheduler and that went as far as a connection attempt
+            for act in trk.handler_runs:
+                if act.requested_after_stop and act.conns:
+                    part.violation('C45/%s/reconnection-attempt-started-after-shutdown/%s' % (kind, act.kind),
+                                   'a %s reconnection attempt (_ReconnectionHandler.run) was handed to the executor after Cluster.shutdown() '
+                                   'had stopped the scheduler, ran and made a connection attempt: %s; all: %s' % (
+                                       act.kind, ' '.join(conn_name(c) for c in act.conns),
+                                       ' '.join(conn_name(x) for x in w.conns if x.open_phase is not None)), data)
             left = [t[4] for t in w.tasks]
             if left:
                 part.violation('C45/%s/tasks-left' % kind, 'executor tasks still queued after shutdown: %r' % (left,), data)
